@@ -244,7 +244,14 @@ def judgeBatchRoot (env : Env) (root : NodeId) (vis : NodeId → Nat) (cf : Bool
       [("C06", c06 c (items.map Result.box) v), ("C07", !cf || c07 c v), ("C08", c08 c (cfg.conc == 0) v),
        ("C09", c09 c v), ("C11", c11 c v), ("C02b", !cf || c02Batch c v),
        -- C17 inside batches: slot i is exactly what item i's exec / fallback returned
-       ("C17b", (List.range c.n).all fun i => slotMatches c v.events i (v.slots.getD i default))]
+       ("C17b", ((List.range c.n).all fun i => slotMatches c v.events i (v.slots.getD i default))
+          -- … and every attempt (and the fallback) on item i receives the item as it is: the `Result` itself for a
+          -- Result-style exec function, its `Value()` for an Any-style one (`C17.batch_item_passed_as_is`)
+          && o.trace.all fun e =>
+              match e with
+              | .bexec _ _ i _ a => (match items[i]? with | some it => a == execArg cfg.execS it.box | none => false)
+              | .bfb _ _ i a _ => (match items[i]? with | some it => a == it.box | none => false)
+              | _ => true)]
   | _ => []
 
 /-- `Proofs.Payload.PlainPayloads`, decided on the attempts a script can reach (scripts are finite lists; beyond
